@@ -211,6 +211,35 @@ def check(tier, seed, replay=None):
                 if rc2 != 0 or ml is None or ml:
                     corr = {'engine': 'quant', 'channel': 'X.quant.pack', 'what': 'packed bytes differ from the model for bit widths %s %s' % (ml, (e2 or '')[-300:])}
             chk.notes.append('model evaluation (vm_compute) took %.1fs' % (time.time() - t0))
+    # ---- the property's own observation point: Document.Vector returned by GetDocument versus the vector passed to
+    # AddDocument, on one collection used for many documents (the pure functions above start from fresh buffers)
+    coll_docs = 0
+    if nviol == 0 and replay is None:
+        from searchlib import stored as stored_ref, rand_vec
+        cpath = os.path.join(WORK, 'data', 'quantcoll_%05d.dat' % (os.getpid() % 100000))
+        os.makedirs(os.path.dirname(cpath), exist_ok=True)
+        for b in (4, 8, 16, 32, 64):
+            for dim in ([1, 2, 3, 5, 8] if tier == 'quick' else list(range(1, 13))):
+                if nviol:
+                    break
+                cmds = ['new %d %d 0 0' % (dim, b)]
+                want = {}
+                for i in range(1, 9):
+                    r = rng.random()
+                    v = [1.0] * dim if i == 1 else ([-1.0] * dim if i == 2 else [rng.choice([0.0, 0.25, -0.5, 1.0, -1.0, 3.0, -7.5]) if r < 0.3 else rng.uniform(-1.2, 1.2) for _ in range(dim)])
+                    id_ = i if i < 7 else i - 5          # the last two overwrite documents 2 and 3
+                    cmds.append('add %d - %s' % (id_, ' '.join(str(bits(x)) for x in v)))
+                    want[id_] = [bits(stored_ref(b, x)) for x in v]
+                cmds.append('docs')
+                lines2, rc2, err2 = run_harness(['search', cpath], '\n'.join(cmds) + '\n', timeout=120)
+                got = {int(l.split()[1]): [int(x) for x in l.split()[3:]] for l in lines2 if l.startswith('doc ')}
+                coll_docs += len(got)
+                bad = next((i for i in sorted(want) if got.get(i) != want[i]), None)
+                if rc2 != 0 or any(l.startswith('PANIC') for l in lines2) or bad is not None:
+                    what = ('document %s of a %d-bit, %d-dimensional collection reads back %s, the contract stores %s' % (bad, b, dim, [unbits(x) for x in got.get(bad, [])], [unbits(x) for x in want.get(bad, [])])
+                            if bad is not None else 'the harness died or panicked: %s' % err2[-200:])
+                    if chk.violation({'engine': 'quant', 'what': what, 'commands': cmds, 'signature': 'quant:collection:%d' % b}):
+                        nviol += 1
     if nviol == 0:
         if corr:
             corr['unproved'] = 'correspondence between coq/Float/Quant.v and quantization.go no longer holds'
@@ -220,7 +249,7 @@ def check(tier, seed, replay=None):
     dist = {}
     for b, x in inputs:
         dist[b] = dist.get(b, 0) + 1
-    chk.cov.update({'programs': len(inputs) + len(vecs), 'evaluations': len(inputs) + len(vecs), 'distinct_nontrivial': len(set((b, bits(x)) for b, x in inputs)),
+    chk.cov.update({'documents_read_back_from_collections': coll_docs, 'programs': len(inputs) + len(vecs), 'evaluations': len(inputs) + len(vecs), 'distinct_nontrivial': len(set((b, bits(x)) for b, x in inputs)),
                     'rule': 'for b in {4,8,16}: every level, both float neighbours of every level and of every midpoint between adjacent levels (all codes for 4/8 bits; all 65536 for 16 bits in the thorough tier), range ends, infinities, random values; b=32: random values, exact halfway points between adjacent float32 values and their neighbours, overflow and subnormal thresholds; b=64 random bit patterns; vectors of dimension 1..33',
                     'disagreements_checked': len(inputs), 'samples': [{'bits': b, 'x': x, 'x_bits': bits(x), 'implementation': list(o)} for (b, x), o in list(zip(inputs, outs))[:3]],
                     'distribution': {'inputs_per_bit_width': dist, 'vectors': len(vecs)},
